@@ -330,3 +330,172 @@ Proof.
   intros [ls Hr] Hs. exists (ls ++ [l]). rewrite run_app, Hr. cbn. rewrite Hs. reflexivity.
 Qed.
 
+
+(* ------------------------------------------------------------------ no re-installed CA, no deletion *)
+
+Definition is_del (p : pc) : bool := match p with DelReg _ | DelKey _ => true | _ => false end.
+
+Definition K (s : state) : Prop :=
+  forall c, resets s c = 0 ->
+    forgotten s c = 0 /\ deletes s c = 0 /\ forall t, caof s t = c -> is_del (pcof s t) = false.
+
+Lemma live_false s c a : live s c a = false -> a <= forgotten s c \/ created s c < a.
+Proof.
+  unfold live. intros H. apply Bool.andb_false_iff in H. destruct H as [H|H].
+  - apply Nat.ltb_ge in H. lia.
+  - apply Nat.leb_gt in H. lia.
+Qed.
+Lemma live_true s c a : live s c a = true -> forgotten s c < a <= created s c.
+Proof.
+  unfold live. intros H. apply Bool.andb_true_iff in H. destruct H as [H1 H2].
+  apply Nat.ltb_lt in H1. apply Nat.leb_le in H2. lia.
+Qed.
+
+Lemma K_step s l s' : WF s -> K s -> step s l = Some s' -> K s'.
+Proof.
+  intros [HS HT] HK H. destruct l as [t c|t f|t|c].
+  4: { step_cases H. intros c0 Hr. cbn in *. unfold upd in *.
+       destruct (Nat.eqb_spec c0 c); [discriminate|]. exact (HK c0 Hr). }
+  all: step_cases H; pc_tests; intros c0 Hr; cbn in *; crash_norm; cbn in *;
+    pose proof (HK c0 Hr) as (HF & HD & HP);
+    (split; [exact HF|split; [try exact HD|]]); try (intros t0 Ht0; pose proof (HP t0) as HP0);
+    cbn in *; upd_all; cbn in *; bool_cases; res_cases; cbn in *; try reflexivity; try (apply HP0; assumption);
+    try congruence.
+  - (* Order -> DelReg is impossible: the account is live *)
+    exfalso. apply live_false in Heqb0. pose proof (HT t) as X. rewrite Heqp in X.
+    destruct X as [[X1 X2] _]. subst c0. lia.
+  - (* DelReg itself is impossible *)
+    pose proof (HP t eq_refl) as X. rewrite Heqp in X. discriminate.
+  - pose proof (HP0 Ht0) as X. rewrite Heqp in X. discriminate.
+  - pose proof (HP t eq_refl) as X. rewrite Heqp in X. discriminate.
+Qed.
+
+(* ------------------------------------------------------------------ persisted together *)
+
+Definition saving_pc (p : pc) : bool :=
+  match p with Register | StoreReg _ | StoreKey _ | Rollback _ => true | _ => false end.
+Definition held (p : pc) : option macct :=
+  match p with Unlock (Some m) | Order m _ => Some m | _ => None end.
+
+Lemma saving_holds p : saving_pc p = true -> holds_lock_pc p = true.
+Proof. destruct p; cbn; congruence. Qed.
+
+(** as long as deleteAccountLocally has not run for CA c *)
+Definition Q (s : state) : Prop :=
+  forall c, deletes s c = 0 ->
+    (forall t a, caof s t = c -> pcof s t = StoreKey a -> s_reg (slots s c) = Some a) /\
+    (forall k, s_key (slots s c) = Some k ->
+       s_reg (slots s c) = Some k /\ forall t, caof s t = c -> saving_pc (pcof s t) = false) /\
+    (forall t m, caof s t = c -> held (pcof s t) = Some m -> s_key (slots s c) = Some (m_key m)) /\
+    (forall t m, caof s t = c -> pcof s t = Done (Some m) ->
+       m_loc m = m_key m /\ s_key (slots s c) = Some (m_key m)).
+
+Lemma Q_step s l s' : I_lock s -> Q s -> step s l = Some s' -> Q s'.
+Proof.
+  intros HI HQ H. step_cases H; pc_tests; intros c0 Hd; cbn in *; crash_norm; cbn in *;
+    try (match type of Hd with
+         | context [upd] => unfold upd in Hd; destruct (Nat.eqb_spec c0 (caof s t)) as [E|E]; [discriminate Hd|]
+         end);
+    pose proof (HQ c0 Hd) as (Q1 & Q2 & Q3 & Q4);
+    (split; [intros t0 a0 Hc0 Hp0
+            |split; [intros k0 Hk0; split; [|intros t0 Hc0]
+                    |split; [intros t0 m0 Hc0 Hp0 |intros t0 m0 Hc0 Hp0]]]);
+    cbn in *; upd_all; cbn in *; bool_cases; res_cases; cbn in *; try discriminate;
+    try (eapply Q1; eassumption); try (eapply Q3; eassumption); try (eapply Q4; eassumption);
+    try (match goal with Hk : s_key _ = Some ?k |- _ => destruct (Q2 k Hk) as [? ?]; solve [eauto] end);
+    try congruence; try contradiction.
+  all: try (repeat match goal with H : Some _ = Some _ |- _ => injection H as H; subst end; cbn in *; congruence).
+  all: try (exfalso; match goal with Hk : s_key _ = Some ?k |- _ => destruct (Q2 k Hk) as [X Y]; congruence end).
+  all: try (exfalso; match goal with
+                     | Hk : s_key _ = Some ?k, Hpc : t_pc (thr _ ?u) = _ |- _ =>
+                         destruct (Q2 k ltac:(congruence)) as [X Y];
+                         let Z := fresh in pose proof (Y u ltac:(congruence)) as Z; rewrite Hpc in Z; discriminate Z
+                     end).
+  all: try (lock_facts HI; congruence).
+  - (* StoreKey succeeds: the reg file already holds the same account *)
+    injection Hk0 as <-. eapply Q1; [reflexivity|exact Heqp].
+  - (* ... and nobody else is saving *)
+    destruct (saving_pc (pcof s t0)) eqn:X; [|reflexivity].
+    apply saving_holds in X. lock_facts HI. congruence.
+  - (* ... and nobody held an account before (a held account means the key file was there) *)
+    exfalso. pose proof (Q3 t0 m0 E0 Hp0) as X. destruct (Q2 _ X) as [_ Y].
+    pose proof (Y t eq_refl) as Z. rewrite Heqp in Z. discriminate Z.
+  - exfalso. destruct (Q4 t0 m0 E0 Hp0) as [_ X]. destruct (Q2 _ X) as [_ Y].
+    pose proof (Y t eq_refl) as Z. rewrite Heqp in Z. discriminate Z.
+  - injection Hp0 as <-. eapply (Q3 t); [assumption|rewrite Heqp; reflexivity].
+  - injection Hp0 as <-.
+    split; [apply Nat.eqb_eq; assumption|].
+    eapply (Q3 t); [assumption|rewrite Heqp; reflexivity].
+Qed.
+
+(* ------------------------------------------------------------------ the invariant *)
+
+Record Inv (s : state) : Prop := {
+  inv_lock : I_lock s; inv_J : J s; inv_acc : ACC s; inv_wf : WF s; inv_K : K s; inv_Q : Q s
+}.
+
+Lemma Inv_init : Inv init.
+Proof.
+  split.
+  - intros t H. cbn in H. discriminate.
+  - intros t H. cbn in H. discriminate.
+  - intros c. cbn. lia.
+  - split; [intros c; cbn; split; exact I | intros t; cbn; exact I].
+  - intros c _. cbn. repeat split; reflexivity.
+  - intros c _. cbn. repeat split; intros; try discriminate; reflexivity.
+Qed.
+
+Lemma Inv_step s l s' : Inv s -> step s l = Some s' -> Inv s'.
+Proof.
+  intros [H1 H2 H3 H4 H5 H6] H. split.
+  - eapply I_lock_step; eassumption.
+  - eapply J_step; eassumption.
+  - eapply ACC_step; eassumption.
+  - eapply WF_step; eassumption.
+  - eapply K_step; eassumption.
+  - eapply Q_step; eassumption.
+Qed.
+
+Lemma Inv_reachable s : reachable s -> Inv s.
+Proof.
+  apply reachable_ind; [exact Inv_init|]. intros s0 l s1 _ HI Hs. eapply Inv_step; eassumption.
+Qed.
+
+(* ------------------------------------------------------------------ theorems *)
+
+(** however many instances, threads, restarts, faults, crashes and CA re-installations: every
+    registration beyond the first is paid for by a failed save, a crash between registering
+    and saving, or a deletion by the recreate path *)
+Theorem registrations_bounded s c :
+  reachable s -> created s c <= 1 + fsaves s c + crashes s c + deletes s c.
+Proof.
+  intros H. apply Inv_reachable in H. pose proof (inv_acc _ H c). pose proof (ind_le1 s c). lia.
+Qed.
+
+Theorem no_reset_no_delete s c : reachable s -> resets s c = 0 -> deletes s c = 0.
+Proof. intros H Hr. apply Inv_reachable in H. exact (proj1 (proj2 (inv_K _ H c Hr))). Qed.
+
+Theorem at_most_one_registration s c :
+  reachable s -> fsaves s c = 0 -> crashes s c = 0 -> resets s c = 0 -> created s c <= 1.
+Proof.
+  intros H Hf Hc Hr. pose proof (registrations_bounded s c H). pose proof (no_reset_no_delete s c H Hr). lia.
+Qed.
+
+(** the key file is never there without the reg file of the same account *)
+Theorem persisted_together s c k :
+  reachable s -> deletes s c = 0 -> s_key (slots s c) = Some k -> s_reg (slots s c) = Some k.
+Proof.
+  intros H Hd Hk. apply Inv_reachable in H.
+  destruct (inv_Q _ H c Hd) as (_ & Q2 & _). exact (proj1 (Q2 k Hk)).
+Qed.
+
+(** a successful issuance used the account that is (completely) in storage *)
+Theorem issued_with_stored_account s c t m :
+  reachable s -> deletes s c = 0 -> caof s t = c -> pcof s t = Done (Some m) ->
+  m_key m = m_loc m /\ slots s c = Slot (Some (m_loc m)) (Some (m_loc m)).
+Proof.
+  intros H Hd Hc Hp. apply Inv_reachable in H.
+  destruct (inv_Q _ H c Hd) as (_ & Q2 & _ & Q4).
+  destruct (Q4 t m Hc Hp) as [E Hk]. destruct (Q2 _ Hk) as [Hr _].
+  split; [congruence|]. destruct (slots s c) as [r k]. cbn in *. congruence.
+Qed.
